@@ -178,7 +178,7 @@ func pickPath(t *sim.Tape, cfg *concCfg, adversarial bool) string {
 var openFlagSets = []int{ //nolint:gochecknoglobals // flag combinations.
 	os.O_RDONLY, os.O_RDWR, os.O_WRONLY | os.O_CREATE, os.O_RDWR | os.O_CREATE | os.O_EXCL, os.O_WRONLY | os.O_CREATE | os.O_TRUNC,
 	os.O_WRONLY | os.O_APPEND, os.O_RDWR | os.O_CREATE | os.O_APPEND, os.O_WRONLY | os.O_TRUNC, os.O_RDWR | os.O_TRUNC | os.O_EXCL,
-	os.O_RDONLY | os.O_CREATE, os.O_WRONLY | os.O_RDWR,
+	os.O_RDONLY | os.O_CREATE,
 }
 
 // genFlags draws open flags: a curated combination, or any access mode with any subset of the other flags.
